@@ -138,6 +138,8 @@ class C12(Oracle):
                     opt = optimum(M)
                     if got != opt:
                         out.append(V("C12", "not_optimal", k, f"fleet {f}: total grid distance {got} but {opt} is possible ({len(V_f)}x{len(R_f)})"))
+        if len({v for v, _ in pairs}) < len(pairs):
+            run.probes["vehicle_in_two_fleets_matched_twice"] += 1
         stray = [p for p in pairs if p not in claimed]
         for v, r in stray:
             out.append(V("C12", "pair_outside_any_fleet", k, f"pair ({v},{r}): the request belongs to none of the fleets {self.fleets}"))
